@@ -275,7 +275,9 @@ def _dom5(chk):
         n.ast.value is not None and src(n.ast.value) == rv for n in rets), f.where(), construct=f.ident, text="return result")
     # _process_event: same dict object goes to handlers and to the callback
     rh = [c for c in g.calls() if call_attr(c) == "_run_handlers"]
-    chk.require(rh, "C02: _run_handlers call vanished")
+    if not rh:
+        chk.missing("DOM-5", "_process_event runs the handlers", g)
+        return
     passed = src(rh[0].args[2]) if len(rh[0].args) >= 3 else src(kwarg(rh[0], "kwargs"))
     apps = [c for c in g.calls() if call_attr(c) == "append" and "callback_queue" in src(c.func)]
     same = bool(apps) and all(isinstance(c.args[0], ast.Tuple) and src(c.args[0].elts[1]) == passed for c in apps)
@@ -284,6 +286,29 @@ def _dom5(chk):
     tpass = src(rh[0].args[1]) if len(rh[0].args) >= 2 else "?"
     chk.ob("DOM-5", "the event type reaches the handler loop", tpass == "ev_type", g.where(rh[0]), construct=g.ident,
            text="ev_type forwarded")
+    # the result of the handlers is reported to the callback as ev_result (boolean False is stored by the loop itself)
+    gcfg = g.cfg()
+    rdefs = [n for n in gcfg.nodes if n.kind == "stmt" and isinstance(n.ast, ast.Assign) and call_attr(n.ast.value) == "_run_handlers"
+             and isinstance(n.ast.targets[0], ast.Name)]
+    if rdefs:
+        rname = rdefs[0].ast.targets[0].id
+        stores = [n for n in gcfg.nodes if n.kind == "stmt" and isinstance(n.ast, ast.Assign)
+                  and src(n.ast.targets[0]) in ("%s['ev_result']" % passed, '%s["ev_result"]' % passed)]
+        ok = bool(stores) and all(src(n.ast.value) == rname for n in stores)
+        chk.ob("DOM-5", "the handlers' result is handed to the callback as ev_result", ok, g.where(), construct=g.ident,
+               text="ev_result = result stored before the callback is queued")
+        for n in stores:
+            facts = dict(gcfg.facts_at(n.id))
+            extra = {k: v for k, v in facts.items() if k not in ("callback", rname) and not k.startswith("self._debug")}
+            chk.ob("DOM-5", "ev_result is stored whenever there is a callback and a result", facts.get("callback") is True
+                   and facts.get(rname, True) is True and not extra, g.where(n.ast), detail="facts %s" % sorted(facts.items()),
+                   construct=g.ident, text="ev_result store guard")
+            apps_n = [a for a, c in gcfg.calls_named("append") if "callback_queue" in src(c.func)]
+            before = all(gcfg.path_avoiding(a.id, [n.id], [], ignore_exc=True) is None for a in apps_n)
+            chk.ob("DOM-5", "ev_result is stored before the callback is queued", before, g.where(n.ast), construct=g.ident,
+                   text="ev_result stored after queueing")
+    else:
+        chk.missing("DOM-5", "_process_event keeps the handlers' result", g)
     chk.floor("DOM-5", 10)
 
 
@@ -477,7 +502,10 @@ def _table0(chk):
     for name in ("post", "post_boolean", "post_queue", "post_relay"):
         f = repo.func(EV, EM + "." + name)
         posts = [c for c in f.calls() if call_attr(c) == "_post"]
-        chk.require(posts, "C02: %s no longer calls _post" % name)
+        if not posts:
+            chk.missing("TABLE-0", "%s hands the event to _post" % name, f)
+            tokens[name] = "<missing>"
+            continue
         a = posts[0].args[1] if len(posts[0].args) > 1 else kwarg(posts[0], "ev_type")
         tokens[name] = a.value if isinstance(a, ast.Constant) else src(a)
     want = {"post": None, "post_boolean": "boolean", "post_queue": "queue", "post_relay": "relay"}
